@@ -105,6 +105,14 @@ func genRequest(rng *Rng, o genReqOpts) []byte {
 			if rng.Bool() {
 				trailers = append(trailers, [2]string{"0a", "w"})
 			}
+		} else if rng.Intn(14) == 0 {
+			// an announced name twice, and a value continued on an obs-fold line (both used to depend on where the
+			// trailer section was cut)
+			extra = append(extra, "Trailer: A, A, X-F\r\n")
+			trailers = append(trailers, [2]string{"A", "1"}, [2]string{"A", "2"})
+			if rng.Bool() {
+				trailers = append(trailers, [2]string{"X-F", "1\r\n 2"})
+			}
 		} else if rng.Intn(3) == 0 {
 			extra = append(extra, "Trailer: X-T1, X-T2\r\n")
 			trailers = append(trailers, [2]string{"X-T1", "v1"})
